@@ -910,6 +910,15 @@ K("dt.rebuild_keeps_vertices", ["C08"], DT, "dt_rebuild.rs", "rebuild_keeps_vert
   mutant=dict(file=DT, old="            .map(|(_, vertex)| Vertex::new_with_uuid(*vertex.point(), vertex.uuid(), vertex.data))", new="            .map(|(_, vertex)| Vertex::new_with_uuid(*vertex.point(), vertex.uuid(), None))",
               desc="user data dropped when collecting vertices for the heuristic rebuild"))
 
+K("dt.reseeded_index", ["C09"], DT, "dt_index.rs", "reseeded_index_contract", "K-full",
+  [fn(DT, "ensure_spatial_index_seeded"), fn(DT, "empty", anchor=r"pub fn empty\(\) -> Self")], timeout=900,
+  bounded="triangulation without vertices (the seeding loop runs 0 times)",
+  obligations=["reseeded-usable", "reseeded-cell-covers-tolerance", "reseeded-same-as-fresh", "fresh-cell-size"],
+  claim="ensure_spatial_index_seeded: the lazily rebuilt duplicate index is usable and its cell size is the duplicate tolerance (1e-10), like the index of a fresh triangulation - so near-duplicates within the tolerance fall into the neighbourhood the duplicate check inspects",
+  mutant=dict(file=DT, old="            <K::Scalar as NumCast>::from(1e-10_f64).unwrap_or_else(K::Scalar::default_tolerance);\n        let mut index: HashGridIndex<K::Scalar, D> = HashGridIndex::new(duplicate_tolerance);",
+              new="            K::Scalar::default_tolerance();\n        let mut index: HashGridIndex<K::Scalar, D> = HashGridIndex::new(duplicate_tolerance);",
+              desc="re-seeded grid uses the scalar's default tolerance (1e-15) as cell size"))
+
 # ======================================================================================
 # Units that are written and attached on demand (`--unit ID`) but NOT part of any registered
 # command: they do not finish within 45 min here (or were never seen to finish).
